@@ -10,6 +10,12 @@ CLAIMS = {
          'The 2^32 pair space of 16-bit multiply is sampled, not enumerated (stated in evidence). Within-one-unit is read inclusively.', '4 C07'),
  'C08': ('Packed / bit-aligned writes: TLC explores the implementation-shaped bit-cursor machine (every ++/--/advance sequence tracks the ideal bit position; n then -n is the identity; distance = pixels moved) and the channel read-modify-write machine over every content of a 12-bit (quick) / 16-bit (thorough) field, and every recorded operation of the real packed_pixel / bit_aligned_pixel_reference / bit_aligned_pixel_iterator (full before/after byte images, buffers flush against inaccessible pages) is validated by TLC against the "exactly these bits" layer of specs/PackedBits.tla.',
          'Little-endian host. Faults are observed through guard pages, ASan and UBSan; configurations are an explicit list (20 bit-aligned, 8 packed). One open known finding (packed_pixel value copy overwrites unused bits).', '4 C08'),
+ 'C01': ('Storage bounds: TLC explores the allocation arithmetic of image.hpp and the memory descriptors of every view factory for every shape, alignment, pixel organisation, allocator address residue and composition up to depth 2 (quick) / 3 (thorough) and checks that every pixel (all planes) lies inside the allocation; the address of every pixel of every view of real images (created / copied / assigned / recreated through a tracking allocator) and of views over exact caller buffers flush against inaccessible pages is recorded and validated by TLC against the block bounds, and every pixel is touched through the accessors and pixel algorithms under ASan/UBSan/guard pages.',
+         'Explicit list of 16 pixel organisations; accesses that are neither an address we log nor trapped by ASan/guard pages are not seen. NDEBUG build; UBSan null/pointer-overflow checks disabled because empty views do arithmetic on null pointers without touching memory.', '4 C01'),
+ 'C02': ('View algebra: TLC checks on every reachable composition that the implementation-shaped descriptor addresses exactly the root pixel named by the documented coordinate formulas, with the documented dimensions, plus the algebraic identities; for the real library every derived view\'s pixel (and channel) addresses are validated by TLC against its source view through the documented formula (dims, map), and a single write through each pixel of each mutable view must change exactly the bits of that pixel (byte-level xor of the whole block).',
+         'Address-based: covers pointer, planar, step, packed and bit-aligned locators. Dereference-adaptor (color_converted) and virtual locators have no addresses and are covered by value tags in the C09/C14 drivers only.', '4 C02'),
+ 'C03': ('Navigation: TLC explores every bounded sequence of ++/--/+=d of the implementation-shaped 1-D iterator over every shape (carry arithmetic with C++ / and %), the step-iterator ordering rule and 1-D traversability against the ideal linear-index model; for the real library the address reached through 12 access paths (view(x,y), row_begin[x], col_begin[y], begin()[i], at, rbegin, xy_at, x_at, y_at, it+=i, moved locator, cached location, axis iterators) is validated to be the same pixel for every view, and the random-access laws of the 1-D and x/y step iterators are validated for every start and offsets crossing row ends.',
+         'Same organisations and compositions as C01/C02 (depth <= 2); locator move sequences are single 2-D moves plus axis-iterator walks, not arbitrary sequences.', '4 C03'),
 }
 NA_REASON = {}
 HOOK_COMMITS = []
